@@ -17,7 +17,7 @@ Definition ext (st : store) (extra : list iobj) : store := mkStore (heap st ++ e
 Fixpoint fresh (e : iexp) : bool :=
   match e with
   | EMap _ e1 | EFilter _ e1 => fresh e1
-  | ESlot _ | EForever _ => false
+  | ESlot _ | EObj _ | EForever _ => false
   | EStr s => valid_utf8 s
   | _ => true
   end.
@@ -41,7 +41,7 @@ Proof. intros A l r x. rewrite nth_error_app2 by lia. rewrite Nat.sub_diag. refl
 Lemma eval_iter_rep : forall e m id m', fresh e = true -> eval_iter e m = (id, m') ->
   forall extra, exists F, Rep F (ext (ms m') extra) id (chain_spec (snd (chain_of e)) (base_elems e m)).
 Proof.
-  induction e as [xs|xs|a z|s|xs|lo hi|lo|n|n|f e IH|p e IH]; intros m id m' Fr H extra;
+  induction e as [xs|xs|a z|s|xs|lo hi|lo|n|n|n|f e IH|p e IH]; intros m id m' Fr H extra;
     cbn [fresh] in Fr; try discriminate Fr.
   - cbn in H. inversion H; subst. exists 1. cbn [chain_of snd chain_spec fold_left base_elems fst].
     destruct (fresh_iter_rep (ext (mkStore (heap (ms m) ++ [OVecIter (length (vecs (ms m))) 0]) (vecs (ms m) ++ [xs])) extra) (length (heap (ms m))))
@@ -147,7 +147,7 @@ Qed.
 
 Lemma eval_iter_stack : forall e m id m', eval_iter e m = (id, m') -> stack m' = stack m.
 Proof.
-  induction e as [xs|xs|a z|s|xs|lo hi|lo|n|n|f e IH|p e IH]; intros m id m' H; cbn [eval_iter] in H.
+  induction e as [xs|xs|a z|s|xs|lo hi|lo|n|n|n|f e IH|p e IH]; intros m id m' H; cbn [eval_iter] in H.
   - cbn in H. inversion H; subst. reflexivity.
   - cbn in H. inversion H; subst. reflexivity.
   - destruct (range_new a z) as [c stp]. cbn in H. inversion H; subst. reflexivity.
@@ -156,7 +156,8 @@ Proof.
   - cbn in H. inversion H; subst. reflexivity.
   - cbn in H. inversion H; subst. reflexivity.
   - cbn in H. inversion H; subst. reflexivity.
-  - inversion H; subst. reflexivity.
+  - destruct (obj_iter (ms m) (nth n (slots m) 0)) as [i s]. inversion H; subst. reflexivity.
+  - destruct (obj_iter (ms m) (nth (OBJ + n) (slots m) 0)) as [i s]. inversion H; subst. reflexivity.
   - destruct (eval_iter e m) as [i m1] eqn:E. cbn in H. inversion H; subst. cbn. eapply IH; eauto.
   - destruct (eval_iter e m) as [i m1] eqn:E. cbn in H. inversion H; subst. cbn. eapply IH; eauto.
 Qed.
@@ -241,6 +242,7 @@ Proof.
   - destruct (eval_iter e m) as [id m1] eqn:EI.
     destruct (fold_loop k ofuel (apply_rd g) init (ms m1) id) as [cc [[acc v] s]].
     destruct cc; inversion H; subst; unfold slen; cbn [m_print m_store stack]; rewrite (eval_iter_stack _ _ _ _ EI); reflexivity.
+  - destruct k0; cbn in H; inversion H; subst; reflexivity.
 Qed.
 
 (* for_leaves_no_state ("break and continue leave no iteration state behind"): whatever a statement list does -
@@ -269,13 +271,13 @@ Proof. intros. eapply (exec_stack (S k)); eauto. Qed.
    loop variable prints exactly chain_spec (elements) - checked here on an instance by computation; the general
    statement is for_rounds_visits (any body that keeps the iterator's denotation) + lang_chain_collect_reduce *)
 Example for_loop_example :
-  eval_mech (mkProg true false [SFor (EFilter (GtK 0) (EMap (AddK (-2)) (EVec [VNum 1; VNum 5; VNum 2; VNum 7]))) [SPrintVar 0; SIf 0 2 [SBreak]]])
+  eval_mech (mkProg true false false [SFor (EFilter (GtK 0) (EMap (AddK (-2)) (EVec [VNum 1; VNum 5; VNum 2; VNum 7]))) [SPrintVar 0; SIf 0 2 [SBreak]]])
   = map b ["#0"; "3"; "5"; "#0"; "end"]%string.
 Proof. vm_compute. reflexivity. Qed.
 
 (* break out of nested loops over one shared iterator: nothing is left on the stack, the iterator keeps its place *)
 Example shared_iterator_example :
-  eval_mech (mkProg true true [SLet 0 (ERange 0 6);
+  eval_mech (mkProg true true false [SLet 0 (ERange 0 6);
                               SFor (ESlot 0) [SPrintVar 0; SFor (ESlot 0) [SPrintVar 1; SIf 1 2 [SBreak]]; SIf 0 1 [SBreak]];
                               SNext 0])
   = map b ["#0"; "0"; "#3"; "1"; "2"; "#3"; "#0"; "3"; "111"; "222"; "end"]%string.
